@@ -351,6 +351,10 @@ def cell(xml_safe):
         gt.typed_canon(), gt.unknown_typed(xml_safe=xml_safe), gt.falsy_literals(),
         st.sampled_from([["l", " lead", None, None], ["l", "trail ", None, None], ["l", "a,b", None, None], ["l", "a\tb", None, None],
                          ["l", "line1\nline2", None, None], ["l", "cr\rlf", None, None], ["l", "crlf\r\n", None, None], ["l", "q\"uote", None, None]]),
+        # terms of different kinds with one and the same text (an IRI, a plain literal saying that IRI, a blank node label and a literal
+        # saying it, the same text with and without a language or datatype)
+        st.sampled_from([["u", "http://ex.org/same"], ["l", "http://ex.org/same", None, None], ["l", "http://ex.org/same", "en", None],
+                         ["l", "http://ex.org/same", None, gt.XSD + "anyURI"], ["b", "same"], ["l", "same", None, None], ["u", "urn:same"]]),
     )
 
 
